@@ -211,6 +211,25 @@ Theorem c04_switch_with_plain_keyed_cases :
 Proof. exact switch_plain. Qed.
 Print Assumptions c04_switch_with_plain_keyed_cases.
 
+(* ... and when the last item has no "=", it is the default - also after an earlier "#default = v" (MediaWiki's rule,
+   restored by fix 4429042): the value of the first keyed case that matches, else that last item, trimmed *)
+Theorem c04_switch_with_a_trailing_default :
+  forall pfnames lib opts stk ea x cases last,
+    (length stk < 100)%nat -> plain x = true -> forallb case_ok cases = true -> bare_ok last = true ->
+    o_parserfns opts = true ->
+    exists F, forall fuel, (F <= fuel)%nat ->
+      expand_T pfnames lib opts fuel stk ea ((switch_head ++ x)%list :: map mkcase cases ++ [last])%list
+      = Some (add_newline (switch_trailing_result (strip_i x) cases last)).
+Proof. exact switch_trailing. Qed.
+Print Assumptions c04_switch_with_a_trailing_default.
+
+Example c04_switch_trailing_example :     (* {{#switch: c | #default = D | c2 }} gives "c2", {{#switch: c | c = yes | c2 }} gives "yes" *)
+  let cases := [(chars [35; 100; 101; 102; 97; 117; 108; 116], chars [68])] in
+  forallb case_ok cases = true /\ bare_ok (chars [99; 50]) = true /\
+  codes (switch_trailing_result (chars [99]) cases (chars [99; 50])) = [99; 50] /\
+  codes (switch_trailing_result (chars [99]) [(chars [99], chars [121; 101; 115])] (chars [99; 50])) = [121; 101; 115].
+Proof. vm_compute. repeat split. Qed.
+
 Example c04_switch_example :     (* {{#switch: 02 | a = x | +2 = two | #default = d }} gives "two"; with 3 for 02 it gives "d" *)
   let cases := [(chars [32; 97; 32], chars [32; 120]); (chars [32; 43; 50; 32], chars [32; 116; 119; 111; 32]);
                 (chars [32; 35; 100; 101; 102; 97; 117; 108; 116; 32], chars [32; 100; 32])] in
